@@ -31,7 +31,27 @@ theorem final_chance_never_extends (v : VSock) (e : Nat) (he : v.timers.inactivi
   unfold armFinalChance
   split
   · simp only [Timer.arm, he]; exact ⟨_, rfl, Nat.min_le_left _ _⟩
-  · exact ⟨e, he, Nat.le_refl _⟩
+  · split
+    · simp only [Timer.arm, he]; exact ⟨_, rfl, Nat.min_le_left _ _⟩
+    · exact ⟨e, he, Nat.le_refl _⟩
+
+/-- **Once the application has let go of both halves a Pending poll always leaves the inactivity timer
+armed**, whatever the state (data still unsent behind a zero window included), no later than the configured
+remote-inactivity timeout after this poll and never later than it already was (D19). -/
+theorem app_gone_timer_armed (v : VSock) (hr : v.rx.readerDropped = true) (hw : v.tx.writerDropped = true) :
+    ∃ d, v.armFinalChance.timers.inactivity = some d ∧ d ≤ v.pollNow + max 1000000000 v.opts.inactivityTimeout ∧
+      (∀ e, v.timers.inactivity = some e → d ≤ e) := by
+  have hc := constants_pinned
+  unfold armFinalChance
+  split
+  · simp only [Timer.arm, hc]
+    cases v.timers.inactivity with
+    | none => exact ⟨_, rfl, by omega, by simp⟩
+    | some e => exact ⟨_, rfl, by have := Nat.min_le_right e (v.pollNow + 1000000000); omega, by intro e' he; simp at he; subst he; exact Nat.min_le_left _ _⟩
+  · simp only [hr, hw, and_self, if_true, Timer.arm]
+    cases v.timers.inactivity with
+    | none => exact ⟨_, rfl, by omega, by simp⟩
+    | some e => exact ⟨_, rfl, by have := Nat.min_le_right e (v.pollNow + v.opts.inactivityTimeout); omega, by intro e' he; simp at he; subst he; exact Nat.min_le_left _ _⟩
 
 /-- Local close is absorbing: every state at or past our FIN stays so under the transition table. -/
 theorem local_close_absorbing (v : VSock) (hdr : Header) (h : v.state.isLocalFinOrLater = true) :
